@@ -1676,7 +1676,7 @@ impl SourceTextModule {
 
         let mut imports = Vec::new();
 
-        let (codeblock, functions) = {
+        let (codeblock, functions, var_locators) = {
             // 7. For each ImportEntry Record in of module.[[ImportEntries]], do
             for entry in &self.code.import_entries {
                 // a. Let importedModule be GetImportedModule(module, in.[[ModuleRequest]]).
@@ -1750,6 +1750,7 @@ impl SourceTextModule {
             let var_declarations = var_scoped_declarations(source);
             // 20. Let declaredVarNames be a new empty List.
             let mut declared_var_names = Vec::new();
+            let mut var_locators = Vec::new();
             // 21. For each element d of varDeclarations, do
             for var in var_declarations {
                 // a. For each element dn of the BoundNames of d, do
@@ -1769,6 +1770,10 @@ impl SourceTextModule {
                             &index,
                             &CallFrame::undefined_register(),
                         );
+
+                        // The binding must already hold `undefined` when linking finishes: an importer
+                        // in the same cycle can read it before this module's body runs.
+                        var_locators.push(env.get_binding(&name).js_expect("binding must exist")?);
 
                         // 3. Append dn to declaredVarNames.
                         declared_var_names.push(name);
@@ -1836,7 +1841,7 @@ impl SourceTextModule {
 
             compiler.compile_module_item_list(source.items());
 
-            (Gc::new(compiler.finish()), functions)
+            (Gc::new(compiler.finish()), functions, var_locators)
         };
 
         // 8. Let moduleContext be a new ECMAScript code execution context.
@@ -1912,6 +1917,18 @@ impl SourceTextModule {
                     }
                 },
             }
+        }
+
+        // deferred initialization of `var` bindings (step 21.a.i.2)
+        for locator in var_locators {
+            let frame = context.vm.frame_mut();
+            let global = frame.realm.environment();
+            frame.environments.put_lexical_value(
+                locator.scope(),
+                locator.binding_index(),
+                JsValue::undefined(),
+                global,
+            );
         }
 
         // deferred initialization of function exports
